@@ -305,6 +305,12 @@ def good (s : St) : Bool := noSplitBrain s && newOnlyIfPeer s && (reusedNotClose
 /-- the three properties, T2 unconditionally -/
 def goodStrict (s : St) : Bool := noSplitBrain s && newOnlyIfPeer s && reusedNotClosed s
 
+/-- what is demanded of a final state, by initial caches: T2 unconditionally unless both caches are empty -/
+def goodFor (pre : Entry × Entry) : St → Bool :=
+  match pre with
+  | (none, none) => good
+  | _ => goodStrict
+
 /-- consistent pre-existing cache states: at most the one old connection `e`, seen from opposite directions -/
 def preStates : List (Entry × Entry) :=
   [ (none, none),
